@@ -213,6 +213,17 @@ impl BloomTokenLog {
             },
 //@ end
 }
+/// the null log (used when the `bloom` feature is off or by configuration): it has to refuse every token, otherwise a server without a
+/// replay log would accept the same NEW_TOKEN token any number of times
+pub struct NoneTokenLog;
+impl NoneTokenLog {
+//@ extract quinn-proto/src/token.rs :: impl TokenLog for NoneTokenLog::fn check_and_insert
+//@ ret res
+//@ vis pub
+//@ contract
+        ensures res.is_err()
+//@ end
+}
 }
 }
 fn main() {}
